@@ -43,4 +43,55 @@ theorem next_up_total_f32 (lib : Libm) (x : Nat) (m : Nat) (e : Int) (dx : decod
   rw [hfm] at h2 h3
   exact ⟨o, h1, h2, by simpa using h3⟩
 
+lemma pow127_le_Lmax32 : (2 : ℚ) ^ (127 : ℤ) ≤ Lmax binary32 := by
+  have h := pow_kmax_le_Lmax binary32 ⟨by decide, by decide⟩
+  have hk : kmax binary32 = 127 := by decide +kernel
+  have e : (2 : ℚ) ^ (127 : ℤ) = 2 ^ kmax binary32 := congrArg (fun k : ℤ => (2 : ℚ) ^ k) hk.symm
+  rw [e]; exact h
+
+/-- **`is_power_of_two` exact on bit patterns, unconditional** (float32): for EVERY pattern of a normal number ±m·2^e with
+|x| ≤ 2^102 the traced program returns 1 if x is a power of two and 0 otherwise — the three finiteness hypotheses of
+`is_power_of_two_bit_exact_f32` are proved from the bound (`mul_finite`, `sub_finite`). -/
+theorem is_power_of_two_total_f32 (lib : Libm) (x : Nat) (s : Bool) (m : Nat) (e : Int)
+    (dx : decode binary32 x = .fin s m e) (nm : 2 ^ 23 ≤ m) (bx : |valQ s m e| ≤ 2 ^ (102 : ℤ)) :
+    is_power_of_two_f32.eval lib [x] = some [b2n (decide (m = 2 ^ 23))] := by
+  have hf : WF binary32 := ⟨by decide, by decide⟩
+  have hr := isRN_rne (qf binary32 hf.hp)
+  have dP : decode binary32 1258291201 = .fin false 8388609 0 := by decide +kernel
+  have dQ : decode binary32 1258291200 = .fin false 8388608 0 := by decide +kernel
+  have hP : valQ false 8388609 0 = 2 ^ 23 + 1 := by simp [valQ]; norm_num
+  have hQ : valQ false 8388608 0 = 2 ^ 23 := by simp [valQ]; norm_num
+  have hem : (qf binary32 hf.hp).emin ≤ (126 : ℤ) := by show binary32.emin ≤ 126; decide
+  have hem7 : (qf binary32 hf.hp).emin ≤ (127 : ℤ) := by show binary32.emin ≤ 127; decide
+  have e126 : (2 : ℚ) ^ (126 : ℤ) = 2 ^ (24 : ℤ) * 2 ^ (102 : ℤ) := by rw [← zpow_add₀ (by norm_num : (2 : ℚ) ≠ 0)]; norm_num
+  have bL : |valQ false 8388609 0 * valQ s m e| ≤ 2 ^ (126 : ℤ) := by
+    rw [hP, abs_mul, e126]
+    apply mul_le_mul _ bx (abs_nonneg _) (by positivity)
+    rw [abs_of_pos (by norm_num)]; norm_num
+  have bR : |valQ false 8388608 0 * valQ s m e| ≤ 2 ^ (126 : ℤ) := by
+    rw [hQ, abs_mul, e126]
+    apply mul_le_mul _ bx (abs_nonneg _) (by positivity)
+    rw [abs_of_pos (by norm_num)]; norm_num
+  have rL := abs_rn_le_pow hr hem bL
+  have rR := abs_rn_le_pow hr hem bR
+  have h126 : (2 : ℚ) ^ (126 : ℤ) ≤ Lmax binary32 := le_trans (zpow_le_zpow_right₀ (by norm_num) (by norm_num)) pow127_le_Lmax32
+  have fL := mul_finite binary32 hf 1258291201 x false s 8388609 m 0 e dP dx (le_trans rL h126)
+  have fR := mul_finite binary32 hf 1258291200 x false s 8388608 m 0 e dQ dx (le_trans rR h126)
+  obtain ⟨sL, mL, eL, dL⟩ := finite_decode binary32 _ fL
+  obtain ⟨sR, mR, eR, dR⟩ := finite_decode binary32 _ fR
+  have vL := mul_correct binary32 hf _ x false s 8388609 m 0 e dP dx fL
+  have vR := mul_correct binary32 hf _ x false s 8388608 m 0 e dQ dx fR
+  have eL' : valQ sL mL eL = rne (qf binary32 hf.hp) (valQ false 8388609 0 * valQ s m e) := by
+    have := toQ_fin binary32 _ sL mL eL dL; rw [vL] at this; exact (Option.some.inj this).symm
+  have eR' : valQ sR mR eR = rne (qf binary32 hf.hp) (valQ false 8388608 0 * valQ s m e) := by
+    have := toQ_fin binary32 _ sR mR eR dR; rw [vR] at this; exact (Option.some.inj this).symm
+  have bD : |valQ sL mL eL - valQ sR mR eR| ≤ 2 ^ (127 : ℤ) := by
+    rw [eL', eR']
+    have e127 : (2 : ℚ) ^ (127 : ℤ) = 2 ^ (126 : ℤ) + 2 ^ (126 : ℤ) := by
+      rw [show (127 : ℤ) = 126 + 1 by norm_num, zpow_add₀ (by norm_num : (2 : ℚ) ≠ 0)]; norm_num
+    rw [e127]
+    exact le_trans (abs_sub _ _) (add_le_add rL rR)
+  have fD := sub_finite binary32 hf _ _ sL sR mL mR eL eR dL dR (le_trans (abs_rn_le_pow hr hem7 bD) pow127_le_Lmax32)
+  exact is_power_of_two_bit_exact_f32 lib x s m e dx nm fL fR fD
+
 end FAVerif.Props.C11
